@@ -717,7 +717,15 @@ pub(crate) async fn invoke_shell_function(
     // Apply any redirects specified at function definition-time.
     if let Some(redirects) = redirects {
         for redirect in &redirects.0 {
-            interp::setup_redirect(context.shell, &mut context.params, redirect).await?;
+            // A failing redirection fails the call (status 1); it is reported on the standard
+            // error in effect at that point, i.e. as changed by the redirections before it.
+            if let Err(e) =
+                interp::setup_redirect(context.shell, &mut context.params, redirect).await
+            {
+                use std::io::Write as _;
+                let _ = writeln!(context.params.stderr(context.shell), "error: {e}");
+                return Ok(ExecutionResult::general_error().into());
+            }
         }
     }
 
